@@ -123,7 +123,10 @@ ASSUMPTIONS = [
     "CPython generator protocol: a suspended generator performs no work until next() is called",
     "queries are tree-shaped; quantifiers may occur anywhere below and_/or_/not_ and below each other (Model/EqlTraceN.lean)",
 ]
-RULE = ("corpus, then nested an(...)/the(...) sub-queries as comparison operands (correlated / uncorrelated, inner variable "
+RULE = ("corpus, then construction scenarios (props/c10_build.py: hand-written ones + generated families: every kind of one-shot "
+        "iterator x every operand position taking plain data, every handed-out iterator measured after construction; symbolic "
+        "functions / Predicate subclasses with var-keyword, var-positional, keyword-only parameters x the parameter the variable "
+        "is written for), then nested an(...)/the(...) sub-queries as comparison operands (correlated / uncorrelated, inner variable "
         "over an int or object generator domain; every k; the same history re-evaluation), then two DIFFERENT queries over one "
         "variable set (A abandoned after k results, then B: one result, then B exhausted), then quantifiers below and_/or_/not_ and inside other quantifiers (hand-shaped positions + the shared "
         "generator's quantified trees), random root-level exists/for_all over quantifier-free bodies and random quantifier-free condition trees (depth<=3, 1-3 variables, int/object domains as one-shot "
